@@ -75,7 +75,7 @@ func vmPush(script []byte) (res *big.Int, err error) {
 func emitCase(c *ctx, n *big.Int, viaInt bool) {
 	var script []byte
 	name := "emit_big"
-	obs := hx.Safe(func() string {
+	obs := c.safe(func() string {
 		w := io.NewBufBinWriter()
 		if viaInt {
 			emit.Int(w.BinWriter, n.Int64())
@@ -138,8 +138,8 @@ func famEmit(c *ctx) {
 	default:
 		s = []byte{byte(0x0c + r.Intn(0x18))}
 	}
-	c.line("pushed "+hx.Hex(s), pushedObs(s))
-	c.line("int64of "+hx.Hex(s), int64Obs(s))
+	c.pureLine("pushed "+hx.Hex(s), pushedObs(s), func() string { return pushedObs(s) })
+	c.pureLine("int64of "+hx.Hex(s), int64Obs(s), func() string { return int64Obs(s) })
 	// emit.Bytes at the PUSHDATA1/2/4 boundaries
 	if r.Chance(1, 4) {
 		ls := []int{0, 1, 33, 75, 76, 254, 255, 256, 257, 300}
@@ -200,7 +200,7 @@ func famEmit(c *ctx) {
 		}
 		w := append([]byte{byte(k)}, p...)
 		obs := int64Obs(w)
-		c.line("int64of "+hx.Hex(w), obs)
+		c.pureLine("int64of "+hx.Hex(w), obs, func() string { return int64Obs(w) })
 		if obs != "err" {
 			// what it returns must be what the VM pushes
 			if got, err := vmPush(w); err != nil || got.String() != obs {
@@ -245,7 +245,7 @@ func msParse(c *ctx, script []byte) (int, [][]byte, bool) {
 	var m int
 	var ks [][]byte
 	okk := false
-	obs := hx.Safe(func() string {
+	obs := c.safe(func() string {
 		a, b, ok := scparser.ParseMultiSigContract(script)
 		if !ok {
 			return "no"
@@ -303,7 +303,7 @@ func famScript(c *ctx) {
 			m  int
 		}{{"msdefault", smartcontract.CreateDefaultMultiSigRedeemScript, n - (n-1)/3}, {"msmajority", smartcontract.CreateMajorityMultiSigRedeemScript, n - (n-1)/2}} {
 			var sc []byte
-			obs := hx.Safe(func() string {
+			obs := c.safe(func() string {
 				s, err := b.f(input.Copy())
 				if err != nil {
 					return "err"
@@ -369,7 +369,7 @@ func famScript(c *ctx) {
 		vs = append([]byte{}, vs...)
 		vs[r.Intn(len(vs))] ^= byte(1 << uint(r.Intn(8)))
 	}
-	c.line("sigparse "+hx.Hex(vs), hx.Safe(func() string {
+	c.line("sigparse "+hx.Hex(vs), c.safe(func() string {
 		k, ok := scparser.ParseSignatureContract(vs)
 		if !ok {
 			return "no"
